@@ -58,14 +58,14 @@ type Item struct {
 }
 
 type Ctx struct {
-	w     *World
-	sc    *Schema
-	tier  string
-	prop  string
-	seed  int64
-	res   *ItemResult
-	item  string
-	gen   *Gen
+	w    *World
+	sc   *Schema
+	tier string
+	prop string
+	seed int64
+	res  *ItemResult
+	item string
+	gen  *Gen
 }
 
 type Driver struct {
@@ -377,6 +377,7 @@ func (c *Ctx) runItem(it Item) *ItemResult {
 	q0, t0s, p0, st0, m0 := e.solver.Queries, e.solver.Time, e.Paths, e.Steps, e.Merges
 	e.solver.MaxQuery = 0
 	e.funcs = map[string]int{}
+	crcLog = nil
 	t0 := time.Now()
 	func() {
 		defer func() {
@@ -415,11 +416,11 @@ func (c *Ctx) runItem(it Item) *ItemResult {
 }
 
 func resetTerms() {
-	// Terms of the base state (init-built maps hold only constants) are re-created on demand by hash-consing;
-	// dropping the table only loses sharing, never correctness, because ids stay unique (tcount is not reset).
-	hc = map[string]*Term{}
-	hc[fmt.Sprintf("%s|%d|%d|%s|%d|%d", "true", 0, 0, "", 0, 0)] = True
-	hc[fmt.Sprintf("%s|%d|%d|%s|%d|%d", "false", 0, 0, "", 0, 0)] = False
+	// Dropping the table only loses sharing, never correctness: ids stay unique (tcount is not reset) and
+	// constants compare by value.
+	hc = map[termKey]*Term{}
+	hc[termKey{op: "true"}] = True
+	hc[termKey{op: "false"}] = False
 	varBounds = map[*Term][2]int64{}
 }
 
